@@ -151,3 +151,32 @@ func HarnessC10Big() {
 	want := v.Cmp(lo) >= 0 && v.Cmp(hi) <= 0
 	verifrt.Assert(fitsInType(s, tys[ti]) == want, "128/256-bit integer literal range check disagrees with the mathematical value")
 }
+
+// HarnessC10Sequence: the range check has no memory - the verdict for a literal does not depend on which literals
+// (and which types) were checked earlier in the same compilation.  Two checks run one after the other: the same or
+// another boundary literal text against the signed and the unsigned type of one width, in either order; each verdict
+// must equal the mathematical one.  (Texts are concrete boundary values: 2^(N-1)-1, 2^(N-1), 2^N-1, 2^N.)
+func HarnessC10Sequence() {
+	widths := []uint{8, 16, 32, 64}
+	st := []types.SemType{types.TypeI8, types.TypeI16, types.TypeI32, types.TypeI64}
+	ut := []types.SemType{types.TypeU8, types.TypeU16, types.TypeU32, types.TypeU64}
+	texts := [][]string{{"127", "128", "255", "256"}, {"32767", "32768", "65535", "65536"}, {"2147483647", "2147483648", "4294967295", "4294967296"},
+		{"9223372036854775807", "9223372036854775808", "18446744073709551615", "18446744073709551616"}}
+	// verdicts for the four texts of a width: signed type / unsigned type
+	fitS := []bool{true, false, false, false}
+	fitU := []bool{true, true, true, false}
+	w := verifrt.Choice("width", len(widths))
+	a := verifrt.Choice("first", 4)
+	b := verifrt.Choice("second", 4)
+	signedFirst := verifrt.Choice("order", 2) == 0
+	sameSign := verifrt.Choice("samesign", 2) == 1
+	check := func(ti int, signed bool) {
+		if signed {
+			verifrt.Assert(fitsInType(texts[w][ti], st[w]) == fitS[ti], "the range check of a literal depends on an earlier check (signed type)")
+		} else {
+			verifrt.Assert(fitsInType(texts[w][ti], ut[w]) == fitU[ti], "the range check of a literal depends on an earlier check (unsigned type)")
+		}
+	}
+	check(a, signedFirst)
+	check(b, signedFirst == sameSign)
+}
